@@ -17,6 +17,7 @@ Proof.
   destruct (is_absolute n); [reflexivity|].
   destruct origin as [o|]; [|reflexivity].
   destruct (is_absolute o); cbn; [|reflexivity].
+  destruct (wire_length n + wire_length o >? 255); cbn; [reflexivity|].
   now rewrite !wire_labels_rfc, rfc_name_wire_app.
 Qed.
 
